@@ -248,6 +248,21 @@ func Load(repo string, patterns []string) (*Program, error) {
 			}
 			if c.NoBody {
 				prog.IfaceC[pkgPath+":"+k] = c
+				// `iface func (x *alias.Type) M(...)`: an assumed contract of a method of an external package,
+				// found at call sites under that package's path
+				if parts := strings.Split(k, "."); len(parts) == 3 {
+					for _, im := range pc.Imports {
+						f := strings.Fields(im)
+						path := strings.Trim(f[len(f)-1], "\"")
+						alias := path[strings.LastIndex(path, "/")+1:]
+						if len(f) == 2 {
+							alias = f[0]
+						}
+						if alias == parts[0] {
+							prog.IfaceC[path+":"+parts[1]+"."+parts[2]] = c
+						}
+					}
+				}
 				continue
 			}
 			// interface method contract?
